@@ -52,6 +52,8 @@ pub fn leaf_table(with_f64: bool) -> Vec<Ty> {
     }
     // arrays whose element struct itself nests a struct (reachable only through the array element)
     v.push(Ty::Array(Box::new(Ty::Struct(DEEP.into())), 2));
+    // a struct under two array levels (reachable only through both)
+    v.push(Ty::Array(Box::new(Ty::Array(Box::new(Ty::Struct(INNER2.into())), 2)), 3));
     v.push(Ty::Struct(INNER.into()));
     v.push(Ty::Struct(INNER2.into()));
     v.push(Ty::Struct(DEEP.into()));
@@ -207,6 +209,20 @@ pub fn make_prog(members: Vec<Member>, space: &'static str, key: String) -> Stru
     StructProg { key, env, root, space, src }
 }
 
+/// Members at large offsets / large struct sizes (decimal boundaries 10^4..10^7, binary 2^16 / 2^20, values with zero
+/// digit groups such as 16 000 and 1 048 576): the expected numbers are numbers, however long.
+pub fn big_offset_space() -> Vec<StructProg> {
+    let f = Scalar::F32;
+    let mut out = vec![];
+    for n in [624u32, 625, 1000, 1001, 4000, 4096, 6250, 62_500, 65_536, 625_000, 1_000_000] {
+        out.push(make_prog(vec![Member::plain("big", Ty::Array(Box::new(Ty::Vec(4, f)), n)), Member::plain("tail", Ty::Scalar(f)), Member::plain("after", Ty::Vec(2, f))], "storage", format!("big-offset|vec4x{n}")));
+    }
+    for n in [2500u32, 10_001, 25_000, 100_000, 262_144] {
+        out.push(make_prog(vec![Member::plain("head", Ty::Scalar(Scalar::U32)), Member::plain("big", Ty::Array(Box::new(Ty::Scalar(f)), n)), Member::plain("tail", Ty::Struct(INNER.into()))], "storage", format!("big-offset|f32x{n}")));
+    }
+    out
+}
+
 /// The same program with a second module-scope variable of another address space sharing the root struct (or a
 /// struct nested in it), declared before or after the bound variable. What the host has to fill does not change.
 pub fn sibling_variants(p: &StructProg) -> Vec<StructProg> {
@@ -289,7 +305,7 @@ pub fn struct_space(with_f64: bool, three: bool, attrs: bool, rt_arrays: bool) -
     }
     if rt_arrays {
         let f = Scalar::F32;
-        for e in [Ty::Scalar(f), Ty::Vec(2, f), Ty::Vec(3, f), Ty::Vec(4, f), Ty::Mat(4, 4, f), Ty::Mat(3, 3, f), Ty::Struct(INNER.into()), Ty::Scalar(Scalar::U32), Ty::Vec(3, Scalar::I32), Ty::Array(Box::new(Ty::Vec(2, f)), 3), Ty::Struct(DEEP.into())] {
+        for e in [Ty::Scalar(f), Ty::Vec(2, f), Ty::Vec(3, f), Ty::Vec(4, f), Ty::Mat(4, 4, f), Ty::Mat(3, 3, f), Ty::Struct(INNER.into()), Ty::Scalar(Scalar::U32), Ty::Vec(3, Scalar::I32), Ty::Array(Box::new(Ty::Vec(2, f)), 3), Ty::Struct(DEEP.into()), Ty::Array(Box::new(Ty::Struct(INNER2.into())), 2)] {
             out.push(make_prog(vec![Member::plain(names[0], Ty::RtArray(Box::new(e.clone())))], "storage-read", format!("rt1|{}", e.wgsl())));
             for first in [Ty::Scalar(Scalar::U32), Ty::Vec(3, f), Ty::Struct(INNER.into())] {
                 out.push(make_prog(
